@@ -77,6 +77,15 @@ func runCaseRealtime(c *Case) Verdict {
 			}
 			e.settle(st)
 		}
+		// Sessions that had stopped reading read again: a session handler held back by one
+		// of them (legitimately, for up to a result-retry period per pending result) is
+		// released at its next retry, whereas a deadlock on a mutex stays.
+		for _, s := range e.Sess {
+			if s.Stalled && s.lk != nil {
+				s.Stalled = false
+				s.lk.pause(false)
+			}
+		}
 		for i := range e.C.Realms {
 			if _, err := e.Probe(e.C.Realms[i].URI); err != nil && err != errProbeSkipped {
 				done <- Verdict{Kind: "hang", Prop: c.Prop, Reason: "confirmed on the real clock, outside the test bubble: " + err.Error()}
